@@ -1092,6 +1092,18 @@ ldb_recover(ldb_t *db, ldb_edit_t *edit, int *save_manifest) {
   for (i = 0; i < (int)logs.length; i++)
     ldb_versions_mark_file_number(db->versions, logs.items[i]);
 
+  /* The number for a new descriptor was drawn before the logs were
+     reserved: draw another one if a log already carries it. */
+  if (db->versions->descriptor_log == NULL) {
+    for (i = 0; i < (int)logs.length; i++) {
+      if (logs.items[i] == db->versions->manifest_file_number) {
+        db->versions->manifest_file_number =
+          ldb_versions_new_file_number(db->versions);
+        break;
+      }
+    }
+  }
+
   for (i = 0; i < (int)logs.length; i++) {
     rc = ldb_recover_log_file(db, logs.items[i],
                                   (i == (int)logs.length - 1),
